@@ -7,6 +7,7 @@ closed, …) — `Reach p n s` is the closure of `St.init n` under `step p · t 
 -/
 import GoZero.C05.Proofs
 import GoZero.C05.ProofsSem
+import GoZero.C05.ProofsPool
 namespace GoZero.C05
 
 /-! ## 1. every site: the cap, no leak, no spurious error -/
@@ -225,5 +226,83 @@ theorem seq_monitor_sound (n : Nat) (ops : List SemOp) :
 
 example : ((Sem.init 2).trace [.tryBorrow, .borrow, .tryBorrow, .ret, .ret, .ret]).map (·.2)
     = [.ok, .ok, .refused, .ok, .ok, .errReturn] := by decide
+
+/-! ## 4. `syncx.Pool`
+
+`PReach limit maxAge s`: `s` is reachable from the empty pool by ANY sequence of `Get`s and `Put`s of any
+number of users at any clock readings, where every `Put` gives back a resource its caller got from `Get` and
+has not given back yet (the caller contract), and `create` yields fresh resources. -/
+
+/-- **Pool invariant**: `created = |idle| + |in use| ≤ limit`; idle and in-use resources are pairwise
+distinct (no resource is both idle and in use, none is listed twice). -/
+theorem pool_inv (limit maxAge : Nat) (s : PSys) (h : PReach limit maxAge s) :
+    s.pool.created = (s.pool.idle.length : Int) + (s.inUse.length : Int)
+    ∧ s.pool.created ≤ (limit : Int)
+    ∧ (s.pool.idle.map (·.item) ++ s.inUse.map (·.2)).Nodup := by
+  have hi := preach_inv h
+  refine ⟨hi.count, hi.le_limit, List.nodup_append.mpr ⟨hi.idleND, hi.useND, ?_⟩⟩
+  intro a ha b hb hab
+  subst hab
+  exact hi.disjoint a ha hb
+
+/-- **At most `limit` resources are in use.** -/
+theorem pool_cap (limit maxAge : Nat) (s : PSys) (h : PReach limit maxAge s) : s.inUse.length ≤ limit := by
+  have hi := preach_inv h
+  have h1 := hi.count
+  have h2 := hi.le_limit
+  omega
+
+/-- **A pooled resource is never held by two users at once.** -/
+theorem pool_exclusive (limit maxAge : Nat) (s : PSys) (h : PReach limit maxAge s) (t u : Tid) (r : Nat)
+    (ht : (t, r) ∈ s.inUse) (hu : (u, r) ∈ s.inUse) : t = u := by
+  have hi := preach_inv h
+  have := nodup_map_inj (fun x : Tid × Nat => x.2) s.inUse hi.useND (t, r) (u, r) ht hu rfl
+  exact (Prod.mk.inj this).1
+
+/-- … and one user never holds the same resource twice. -/
+theorem pool_inUse_nodup (limit maxAge : Nat) (s : PSys) (h : PReach limit maxAge s) : s.inUse.Nodup := by
+  have hi := preach_inv h
+  exact nodup_of_nodup_map _ _ hi.useND
+
+/-- **Beyond the cap a `Get` waits** (reaches `cond.Wait()`), it creates and hands out nothing. -/
+theorem pool_full_waits (limit maxAge : Nat) (s : PSys) (h : PReach limit maxAge s)
+    (hfull : s.inUse.length = limit) (now : Nat) : (s.pool.get now).2 = .wait [] := by
+  have hi := preach_inv h
+  have h1 := hi.count
+  have h2 := hi.le_limit
+  have hz : s.pool.idle.length = 0 := by omega
+  have hnil : s.pool.idle = [] := List.eq_nil_of_length_eq_zero hz
+  have hc : ¬ s.pool.created < (s.pool.limit : Int) := by rw [hi.lim]; omega
+  simp [Pool.get, hnil, getLoop, hc]
+
+/-- **Below the cap the capacity is available**: `Get` hands out a resource (an idle one, or a fresh one
+after discarding expired ones) — in particular after all users have put their resources back. -/
+theorem pool_available (limit maxAge : Nat) (s : PSys) (h : PReach limit maxAge s)
+    (hlt : s.inUse.length < limit) (now : Nat) : ∃ item fresh d, (s.pool.get now).2 = .got item fresh d := by
+  have hi := preach_inv h
+  have spec := getLoop_spec s.pool.limit s.pool.maxAge now s.pool.next s.pool.idle s.pool.created []
+  unfold Pool.get
+  revert spec
+  generalize getLoop s.pool.limit s.pool.maxAge now s.pool.next s.pool.idle s.pool.created [] = r
+  obtain ⟨p', res⟩ := r
+  intro spec
+  cases res with
+  | got item fresh d => exact ⟨item, fresh, d, rfl⟩
+  | wait d =>
+    exfalso
+    obtain ⟨_, _, _, _, _, h6⟩ := spec
+    have h1 := hi.count
+    rw [hi.lim] at h6
+    omega
+
+/-- non-vacuity: limit 1, maxAge 10: user 0 gets resource 0 and puts it back at time 5; at time 20 user 1
+asks: resource 0 has expired, it is destroyed and a fresh resource 1 is handed out; user 2 has to wait. -/
+example :
+    ((((PSys.init 1 10).step (.get 0 0)).bind (·.step (.put 0 0 5))).bind (·.step (.get 1 20))).map
+      (fun s => (s.inUse, s.pool.created, (s.pool.get 21).2))
+      = some ([(1, 1)], 1, .wait []) := by decide
+
+example : ((Pool.init 1 10).put 0 5).get 20 = ({ limit := 1, maxAge := 10, created := 0, idle := [], next := 1 }, .got 0 true [0]) := by
+  decide
 
 end GoZero.C05
